@@ -45,3 +45,11 @@ Example C16_example :
                  (Some (l "#else"%string)) (TTxt (l "NOP()"%string) TNil) (l " #endif "%string) (TTxt (l "HALT()"%string) TNil) in
   wf classify t /\ ifdef_lines (render t) = [[]; []; []; []; []; l "NOP()"%string; []; l "HALT()"%string].
 Proof. vm_compute. repeat split; try reflexivity; eexists; (left; reflexivity) || (right; reflexivity). Qed.
+
+(* when no cycle is reported the result is the plain textual splice: every include directive stands
+   for the contents of its file, whether or not that file was included before *)
+Theorem C16_no_report_is_splice : forall fs fuel stack cur items out,
+  expand fuel fs stack cur items = Some out -> no_cycle_report out ->
+  splice fuel fs cur items = Some out.
+Proof. exact no_report_is_splice. Qed.
+Print Assumptions C16_no_report_is_splice.
